@@ -1,6 +1,8 @@
-(* Proofs about the directory model (work in progress: see Properties.v). *)
+(* The main results about the directory model: P holds along every model
+   trace (under the hypothesis that names the known finding F8), and its
+   three named views dir_refines, changeid_strict, readdir_complete. *)
 From Coq Require Import Lia ZifyBool ZifyN ZifyNat.
-From VF Require Import Dir.Model Dir.Spec.
+From VF Require Import Dir.Model Dir.Spec Dir.Abs Dir.Refine Dir.WF Dir.Rec Dir.Step Dir.Evolve Dir.ChangeId Dir.ReadDir.
 Open Scope string_scope.
 
 (* The model trace of a history, in the shape P reads (no lock can leak in the model). *)
@@ -14,3 +16,220 @@ Definition riod_witness : list op := [OVMkdir 0 "a"; OVRename 0 "a" 1 "b"].
 Lemma trace_ok_refuted_l :
   exists ops, trace_ok (fun s => s) hidden_dot_h (mtrace (fun s => s) hidden_dot_h ops) = false.
 Proof. exists riod_witness. vm_compute. reflexivity. Qed.
+
+Section Main.
+Variable norm : string -> string.
+Variable hidden : string -> bool.
+
+(* ---- well-formedness of every reachable state (no hypothesis needed) ----------------------------- *)
+
+Lemma WF_step_core c st o :
+  WF norm c st -> st_clock st < c -> WF norm c (fst (step_core norm hidden st o)).
+Proof.
+  intros H Hc. destruct o; cbn [step_core].
+  - unfold v_lookup. destruct (get_dir (init st d) d) as [dd|]; [destruct (find_entry _ _)|]; cbn [fst]; now apply WF_init.
+  - now apply WF_v_open.
+  - now apply WF_v_mkdir.
+  - now apply WF_v_mknod.
+  - now apply WF_v_link.
+  - exact H.
+  - now apply WF_v_remove.
+  - now apply WF_v_rename.
+  - unfold v_readdir. destruct (get_dir (init st d) d); cbn [fst]; now apply WF_init.
+  - unfold lookup_child. destruct (get_dir (init st d) d) as [dd|]; [destruct (find_entry _ _)|]; cbn [fst]; now apply WF_init.
+  - unfold lookup_all. destruct (get_dir (init st d) d); cbn [fst]; now apply WF_init.
+  - unfold read_dir. destruct (get_dir (init st d) d); cbn [fst]; now apply WF_init.
+  - now apply WF_remove.
+  - now apply ref_remove_all.
+  - now apply ref_remove_all_children_op.
+  - now apply ref_create_children.
+  - now apply WF_create_and_enter.
+  - now apply ref_filter_children.
+  - now apply WF_install_hooks.
+Qed.
+
+Lemma clock_step st o : st_clock (fst (step norm hidden st o)) = S (st_clock st).
+Proof. unfold step. destruct (step_core norm hidden st o). reflexivity. Qed.
+
+Lemma WF_step st o :
+  WF norm (st_clock st) st -> WF norm (st_clock (fst (step norm hidden st o))) (fst (step norm hidden st o)).
+Proof.
+  intros W. rewrite clock_step. unfold step.
+  pose proof (WF_step_core (S (st_clock st)) st o) as H.
+  destruct (step_core norm hidden st o) as [st1 r]. cbn [fst] in *.
+  apply WF_tick. apply H; [|lia]. eapply WF_mono; [|exact W]. lia.
+Qed.
+
+Lemma WF_init_state : WF norm 0 init_state.
+Proof.
+  intros x d Hd. unfold init_state, get_dir in Hd. cbn in Hd.
+  destruct x; [|destruct x; discriminate]. injection Hd as <-. apply dir_ok_clear.
+Qed.
+
+Lemma WF_run_from ops : forall st, WF norm (st_clock st) st ->
+  WF norm (st_clock (run norm hidden st ops)) (run norm hidden st ops).
+Proof. induction ops as [|o t IH]; intros st W; cbn [run]; auto. apply IH. now apply WF_step. Qed.
+
+Lemma WF_run ops : WF norm (st_clock (run norm hidden init_state ops)) (run norm hidden init_state ops).
+Proof. apply WF_run_from. apply WF_init_state. Qed.
+
+(* ---- P along model traces ------------------------------------------------------------------------- *)
+
+Record PInv (st : state) (ps : pstate) : Prop := mkPInv {
+  pi_s : p_s ps = abs st;
+  pi_dm : p_dm ps = dump_of st;
+  pi_wf : WF norm (st_clock st) st;
+  pi_sess : SessInv norm hidden st (p_sess ps) }.
+
+Lemma PInv_init : PInv init_state pinit.
+Proof.
+  constructor; try reflexivity.
+  - apply WF_init_state.
+  - intros x se Hg. discriminate.
+Qed.
+
+Lemma sstep_abs st o :
+  WF norm (st_clock st) st -> is_riod norm hidden (abs st) o = false ->
+  fst (sstep norm hidden (abs st) o) = abs (fst (step norm hidden st o)) /\
+  matches (snd (sstep norm hidden (abs st) o)) (snd (step norm hidden st o)).
+Proof.
+  intros W Hr. unfold is_riod, sstep, step in *.
+  assert (WF norm (S (st_clock st)) st) as W' by (eapply WF_mono; [|exact W]; lia).
+  pose proof (step_core_ref norm hidden (S (st_clock st)) st o W' (Nat.lt_succ_diag_r _)) as H.
+  destruct (sstep_core norm hidden (abs st) o) as [s1 x] eqn:Es.
+  destruct (step_core norm hidden st o) as [st1 r] eqn:Em. cbn [fst snd] in *.
+  destruct (H Hr) as [H1 [H2 _]]. split; auto. rewrite abs_tick, <- H1. now rewrite abs_clock.
+Qed.
+
+Lemma nlinks_abs_step st o :
+  nlinks_ok (abs (fst (step norm hidden st o))) (dump_of (fst (step norm hidden st o))) = true.
+Proof. unfold step. destruct (step_core norm hidden st o) as [st1 r]. cbn [fst]. apply (nlinks_ok_abs (S (st_clock st)) st1). Qed.
+
+Lemma rd_case st ss d c p :
+  WF norm (st_clock st) st -> SessInv norm hidden st ss ->
+  exists ss' rk,
+    readdir_check norm hidden ss (abs st) d c p (snd (step norm hidden st (OVReadDir d c p))) = (ss', rk) /\
+    rk = "" /\ SessInv norm hidden (fst (step norm hidden st (OVReadDir d c p))) ss'.
+Proof.
+  intros I3 I4.
+  assert (WF norm (S (st_clock st)) st) as W1 by (eapply WF_mono; [|exact I3]; lia).
+  destruct (readdir_check_model norm hidden (S (st_clock st)) st ss d c p W1 I4) as [R1 R2].
+  assert (step norm hidden st (OVReadDir d c p) =
+          (tick (S (st_clock st)) (init st d), snd (v_readdir hidden st d c p))) as Est.
+  { unfold step. cbn [step_core]. unfold v_readdir. destruct (get_dir (init st d) d); reflexivity. }
+  rewrite Est. cbn [fst snd].
+  destruct (readdir_check norm hidden ss (abs st) d c p (snd (v_readdir hidden st d c p))) as [ss' rk].
+  exists ss', rk. cbn [fst snd] in *. auto.
+Qed.
+
+Lemma p_step_model st ps o :
+  PInv st ps -> is_riod norm hidden (abs st) o = false ->
+  snd (p_step norm hidden ps o (snd (step norm hidden st o)) (dump_of (fst (step norm hidden st o))) "") = "" /\
+  PInv (fst (step norm hidden st o)) (fst (p_step norm hidden ps o (snd (step norm hidden st o)) (dump_of (fst (step norm hidden st o))) "")).
+Proof.
+  intros [I1 I2 I3 I4] Hr. unfold p_step. rewrite I1, I2.
+  destruct (sstep_abs st o I3 Hr) as [A1 A2].
+  destruct (sstep norm hidden (abs st) o) as [s' x] eqn:Es. cbn [fst snd] in A1, A2. subst s'.
+  pose proof (WF_step st o I3) as W'.
+  pose proof (changes_ok_step norm hidden st o I3) as Hck.
+  pose proof (changeinfo_step norm hidden st o) as Hci.
+  (* the oracle *)
+  assert (oracle x (abs (fst (step norm hidden st o))) o (snd (step norm hidden st o))
+                 (dump_of (fst (step norm hidden st o))) = "") as Hor.
+  { apply oracle_ok; auto. intros Hok. unfold step in *.
+    assert (WF norm (S (st_clock st)) st) as W1 by (eapply WF_mono; [|exact I3]; lia).
+    pose proof (attrs_ok_step norm hidden (S (st_clock st)) (S (st_clock st)) st o W1) as Ha.
+    destruct (step_core norm hidden st o) as [st1 r]. cbn [fst snd] in *. now apply Ha. }
+  (* listings *)
+  assert (exists ss' rk,
+            match o with
+            | OVReadDir d c p => readdir_check norm hidden (p_sess ps) (abs st) d c p (snd (step norm hidden st o))
+            | _ => (p_sess ps, "")
+            end = (ss', rk) /\ rk = "" /\ SessInv norm hidden (fst (step norm hidden st o)) ss') as [ss' [rk [E1 [E2 E3]]]].
+  { assert (SessInv norm hidden (fst (step norm hidden st o)) (p_sess ps)) as Hdef.
+    { apply (SessInv_step norm hidden st (fst (step norm hidden st o)) (p_sess ps) I3); auto.
+      - pose proof (step_EVA norm hidden st o I3) as Hev. unfold step.
+        destruct (step_core norm hidden st o) as [st1 r]. cbn [fst] in *. exact Hev.
+      - rewrite clock_step. lia. }
+    destruct o; try (exists (p_sess ps), ""; split; [reflexivity|split; [reflexivity|exact Hdef]]).
+    now apply rd_case. }
+  rewrite E1. cbn [fst snd]. rewrite Hor, Hck, Hci, E2. rewrite nlinks_abs_step. cbn.
+  split; [reflexivity|]. constructor; auto.
+Qed.
+
+Lemma first_viol_model ops : forall st ps i,
+  PInv st ps -> no_riod_from norm hidden (abs st) ops = true ->
+  first_viol norm hidden i ps (map (fun t => (t, "")) (trace norm hidden st ops)) = None.
+Proof.
+  induction ops as [|o t IH]; intros st ps i HI Hn; cbn [trace map first_viol]; auto.
+  cbn [no_riod_from] in Hn. apply andb_prop in Hn as [Hr Hn]. apply negb_true_iff in Hr.
+  destruct (p_step_model st ps o HI Hr) as [P1 P2].
+  destruct (sstep_abs st o (pi_wf _ _ HI) Hr) as [A1 _]. rewrite A1 in Hn.
+  destruct (step norm hidden st o) as [st1 r]. cbn [fst snd map first_viol] in *.
+  destruct (p_step norm hidden ps o r (dump_of st1) "") as [ps' k]. cbn [fst snd] in *. subst k.
+  cbn. now apply IH.
+Qed.
+
+Lemma abs_init_state : abs init_state = sinit.
+Proof. reflexivity. Qed.
+
+(* P holds along the model trace of every history that does not rename a
+   directory into itself or its own descendant. *)
+Lemma trace_ok_model_l ops :
+  no_rename_into_own_descendant norm hidden ops -> trace_ok norm hidden (mtrace norm hidden ops) = true.
+Proof.
+  intros Hn. unfold trace_ok, mtrace. rewrite (first_viol_model ops init_state pinit 0); auto using PInv_init.
+Qed.
+
+(* dir_refines: the reference hierarchy simulates the model step by step
+   (abstraction commutes) and its oracle accepts every output. *)
+Lemma dir_refines_from ops : forall st,
+  WF norm (st_clock st) st -> no_riod_from norm hidden (abs st) ops = true ->
+  srun norm hidden (abs st) ops = abs (run norm hidden st ops) /\
+  oracle_all norm hidden (abs st) (trace norm hidden st ops) = true.
+Proof.
+  induction ops as [|o t IH]; intros st W Hn; cbn [srun run trace oracle_all]; auto.
+  cbn [no_riod_from] in Hn. apply andb_prop in Hn as [Hr Hn]. apply negb_true_iff in Hr.
+  destruct (sstep_abs st o W Hr) as [A1 A2]. rewrite A1 in Hn.
+  pose proof (WF_step st o W) as W'.
+  assert (oracle (snd (sstep norm hidden (abs st) o)) (abs (fst (step norm hidden st o))) o
+                 (snd (step norm hidden st o)) (dump_of (fst (step norm hidden st o))) = "") as Hor.
+  { apply oracle_ok; auto. intros Hok. unfold step in *.
+    assert (WF norm (S (st_clock st)) st) as W1 by (eapply WF_mono; [|exact W]; lia).
+    pose proof (attrs_ok_step norm hidden (S (st_clock st)) (S (st_clock st)) st o W1) as Ha.
+    destruct (step_core norm hidden st o) as [st1 r]. cbn [fst snd] in *. now apply Ha. }
+  destruct (IH _ W' Hn) as [I1 I2].
+  destruct (sstep norm hidden (abs st) o) as [s' x] eqn:Es. cbn [fst snd] in *. subst s'.
+  destruct (step norm hidden st o) as [st1 r]. cbn [fst snd oracle_all] in *.
+  rewrite Es, Hor. cbn. auto.
+Qed.
+
+Lemma dir_refines_l ops :
+  no_rename_into_own_descendant norm hidden ops ->
+  srun norm hidden sinit ops = abs (run norm hidden init_state ops) /\
+  oracle_all norm hidden sinit (trace norm hidden init_state ops) = true.
+Proof. intros Hn. apply (dir_refines_from ops init_state); auto. apply WF_init_state. Qed.
+
+(* changeid_strict: for every history (no hypothesis) and every further
+   operation, the change counter of every directory never decreases, it
+   strictly increases if the directory's bindings changed, and it stays
+   the same otherwise. *)
+Lemma changeid_strict_l ops o x d d' :
+  let st := run norm hidden init_state ops in
+  get_dir st x = Some d -> get_dir (fst (step norm hidden st o)) x = Some d' ->
+  (d_change d <= d_change d')%N /\
+  (modified (abs_dir d) (abs_dir d') = true -> (d_change d < d_change d')%N) /\
+  (modified (abs_dir d) (abs_dir d') = false -> d_change d = d_change d').
+Proof.
+  intros st Hd Hd'. pose proof (WF_run ops) as W. fold st in W.
+  pose proof (step_EVA norm hidden st o W) as Hev. unfold step in Hd'.
+  destruct (step_core norm hidden st o) as [st1 r]. cbn [fst] in *.
+  destruct (Hev x d Hd) as [d1 [E1 E2]]. change (get_dir (tick (S (st_clock st)) st1) x) with (get_dir st1 x) in Hd'.
+  rewrite E1 in Hd'. injection Hd' as <-.
+  pose proof (evA_final norm _ _ _ d d1 (W x d Hd) E2) as Hf. unfold dir_step_ok in Hf.
+  split; [apply (evA_le _ _ _ E2)|]. destruct (modified (abs_dir d) (abs_dir d1)).
+  - split; [intros _; now apply N.ltb_lt|discriminate].
+  - split; [discriminate|intros _; now apply N.eqb_eq].
+Qed.
+
+End Main.
